@@ -310,6 +310,10 @@ def split_path(p):
 
 def disc_value(e, ctx):
     if isinstance(e, Str): return 0 if getattr(e, 'cow', 'Borrowed') == 'Borrowed' else 1      # Cow<str>
+    if hasattr(e, 'sym_disc'):                 # an enum whose variant is a term: fork over the feasible variants
+        for k in e.sym_disc_values[:-1]:
+            if ctx.branch(e.sym_disc == k): return k
+        return e.sym_disc_values[-1]
     if hasattr(e, 'idx'): return e.idx
     if e.variant in DISC: return DISC[e.variant]
     return 1 if option_is_some(e, ctx) else 0
